@@ -62,7 +62,7 @@ impl Monitor for C10 {
         v
     }
     fn mandatory_buckets(&self, _tier: Tier) -> Vec<String> {
-        ["full_key_sweeps", "more_than_65536_terms", "binary_round_trip_swept", "obo_loader_swept", "alternating_lookups", "id_0_present", "id_9999999_present", "add_beyond_id_space_attempted", "name_queries"]
+        ["full_key_sweeps", "more_than_65536_terms", "binary_round_trip_swept", "obo_loader_swept", "binary_decoder_with_flags", "alternating_lookups", "id_0_present", "id_9999999_present", "add_beyond_id_space_attempted", "name_queries"]
             .iter()
             .map(|s| (*s).to_string())
             .collect()
@@ -292,6 +292,33 @@ impl Monitor for C10 {
                     }
                 }
                 Err(p) => out.violate("C10", "panic:hpo_sweep_round_trip", format!("{} at {}", p.message, p.location)),
+            }
+        }
+
+        // ---- terms with obsolete flags and replacements through the v2 / v3 decoder: the returned term must
+        // carry the data of its record
+        if with_roots && beyond.iter().all(|b| !added.contains(b)) && rng.chance(1, 2) {
+            let mut bf = FactSet::default();
+            bf.version = (2024, 4, 4);
+            for id in &added {
+                let obsolete = *id != 1 && *id != 118 && rng.chance(1, 3);
+                let replaced_by = if *id != 1 && *id != 118 && rng.chance(1, 3) { Some(rng.range(1, 9_999_999) as u32) } else { None };
+                bf.terms.push(TermFact { id: *id, name: names[id].clone(), obsolete, replaced_by });
+            }
+            let v = if rng.chance(1, 2) { 3 } else { 2 };
+            match crate::drive::via_bytes_variant(&bf, v, &mut rng).1 {
+                Ok(bo) => {
+                    out.bucket("binary_decoder_with_flags");
+                    for t in &bf.terms {
+                        bump(&mut out.events, "Ontology::hpo");
+                        let got = bo.hpo(t.id).map(|x| (x.name().to_string(), x.is_obsolete(), x.replacement_id().map(|r| r.as_u32())));
+                        let exp = Some((t.name.clone(), t.obsolete, t.replaced_by));
+                        out.check(got == exp, "C10", "term_data_after_binary_load", || {
+                            format!("v{v} file: hpo({}) returned {got:?}, the record says {exp:?}", t.id)
+                        });
+                    }
+                }
+                Err(e) => out.violate("C10", "binary_load_failed", format!("{e}")),
             }
         }
 
